@@ -51,7 +51,7 @@ theorem mat_S2c : matOf S2c 2 2 = jacobiN (18/25) Energy.Example.A2 := by
 theorem mat_P2c : matOf P2c 2 1 = Energy.Example.P2 := by
   ext i j; fin_cases i <;> fin_cases j <;> simp [matOf, CRS.get, CRS.row, rowGet, P2c, Energy.Example.P2]
 theorem mat_R2c : matOf R2c 1 2 = Energy.Example.P2ᵀ := by
-  ext i j; fin_cases i <;> fin_cases j <;> simp [matOf, CRS.get, CRS.row, rowGet, R2c, Energy.Example.P2]
+  ext i j; fin_cases i; fin_cases j <;> simp [matOf, CRS.get, CRS.row, rowGet, R2c, Energy.Example.P2]
 theorem mat_A1c : matOf A1c 1 1 = Energy.Example.A1 := by
   ext i j; fin_cases i; fin_cases j; simp [matOf, CRS.get, CRS.row, rowGet, A1c, Energy.Example.A1]
 
